@@ -12,13 +12,15 @@ pub fn prop() -> Prop {
   Prop {
     id: "C02",
     rule: "case = the C01 pipeline generator (depth <= 4, whole catalogue incl. every scheduler-using operator, interval/timer sources, local and thread-safe builds, all three scheduler models) + a script of <= 12 steps into which `unsubscribe()` (or the drop of an `unsubscribe_when_dropped()` guard) is injected at a generated position; after the cut the script continues: hot inputs emit and terminate, the clock advances, tasks run (any-order model: in generated order), and finally every pending timer is fired and every ready task run. Part `every-cut` (thorough) tries every position of each generated script. \
-           Oracle: no notification is delivered during a script step later than the cut. Non-trivial: at the cut a scheduled task or timer was pending, or a hot input emitted after the cut. Distinct by hash(case).",
+           Oracle: no notification is delivered during a script step later than the cut. Non-trivial: at the cut a scheduled task or timer was pending, or a hot input emitted after the cut. Distinct by hash(case). \
+           Part `threads` (engine T): thread A emits into SubjectThreads inputs of one of merge / zip / combine_latest / merge_all / take_until / share / observe_on / delay (_threads forms) or a bare SubjectThreads; thread B unsubscribes the probe's subscription and raises a flag the moment unsubscribe() has returned; for scheduler pipelines a third thread runs queued tasks / advances the clock; schedule = <= 3 preemptions at lock-acquisition granularity; afterwards every queued task is run and every timer fired. Oracle: no probe callback is *entered* with the flag raised.",
     assumptions: &[
       "a notification delivered *during* the unsubscribe() call is not counted (the statement speaks of after it returns)",
-      "thread interleavings of the unsubscribing thread with an emitting thread are covered by the engine-T part (when present)",
+      "threads part: sequentially consistent interleavings at lock-acquisition granularity",
     ],
     parts: vec![
       Part { name: "one-cut", run: run_one_cut, tape_len: 160, quick_cases: 1_000_000, thorough_cases: 20_000_000, exhaustive_depth: None, exhaustive_budget: 0, exh_quick: false },
+      Part { name: "threads", run: run_threads, tape_len: 48, quick_cases: 30_000, thorough_cases: 1_000_000, exhaustive_depth: None, exhaustive_budget: 0, exh_quick: false },
       Part { name: "every-cut", run: run_every_cut, tape_len: 160, quick_cases: 60_000, thorough_cases: 2_000_000, exhaustive_depth: None, exhaustive_budget: 0, exh_quick: false },
     ],
   }
@@ -141,4 +143,119 @@ fn run_every_cut(c: &mut dyn Choices, ctx: &Ctx) -> Outcome {
   }
   let desc = if ctx.want_desc { Some(pcase_json(&base)) } else { None };
   Outcome { verdict: Verdict::Ok, nontrivial: any_nt, hash: hash_of(&base), labels: all_labels, notes: vec![], desc }
+}
+
+
+// ------------------------------------------------------------ engine T part
+
+fn run_threads(c: &mut dyn Choices, ctx: &Ctx) -> Outcome {
+  use crate::engine_t::{self, Verdict as TV};
+  use crate::tworld::*;
+  use rxrust::prelude::*;
+  use std::sync::atomic::{AtomicBool, Ordering};
+  use std::sync::Arc;
+  let pipe = c.pick(9);
+  let sched_pipe = pipe >= 7;
+  let a_ops: Vec<(usize, u8)> = (0..(1 + c.pick(4))).map(|_| (if pipe == 0 || pipe >= 6 { 0 } else { c.pick(2) }, c.pick(8) as u8)).collect();
+  let b_pre: usize = c.pick(3);
+  let w_ops: Vec<bool> = if sched_pipe { (0..(1 + c.pick(4))).map(|_| c.pick(3) == 0).collect() } else { vec![] };
+  let n = if sched_pipe { 3 } else { 2 };
+  let k = c.pick(4);
+  let mut preemptions: Vec<(u64, usize)> = (0..k).map(|_| (1 + c.pick(50) as u64, c.pick(n))).collect();
+  preemptions.sort();
+  preemptions.dedup_by_key(|p| p.0);
+
+  crate::vtime::reset(crate::vtime::Mode::Fifo);
+  let w = World::new();
+  let cut = Arc::new(AtomicBool::new(false));
+  let after = Arc::new(AtomicBool::new(false));
+  let probe = TProbe { id: 0, log: w.log.clone(), cut: Some(cut.clone()), after_cut: Some(after.clone()), clock: None, deliveries: None };
+  let sub = Arc::new(std::sync::Mutex::new(Some(w.pipe(pipe).actual_subscribe(probe))));
+  let mut bodies: Vec<Box<dyn FnOnce() + Send>> = vec![];
+  {
+    let w = w.clone();
+    let ops = a_ops.clone();
+    bodies.push(Box::new(move || {
+      TID.with(|t| t.set(0));
+      let mut v = 100;
+      for (i, kind) in ops {
+        engine_t::call_begin();
+        match kind {
+          0 => w.hot[i].clone().complete(),
+          1 => w.hot[i].clone().error(3),
+          _ => {
+            v += 1;
+            w.hot[i].clone().next(v)
+          }
+        }
+        engine_t::call_end();
+      }
+    }));
+  }
+  {
+    let w = w.clone();
+    let (sub, cut) = (sub.clone(), cut.clone());
+    bodies.push(Box::new(move || {
+      TID.with(|t| t.set(1));
+      let mut v = 200;
+      for _ in 0..b_pre {
+        v += 1;
+        w.hot[1].clone().next(v);
+      }
+      let s = sub.lock().unwrap().take();
+      if let Some(s) = s {
+        engine_t::call_begin();
+        s.unsubscribe();
+        cut.store(true, Ordering::SeqCst); // unsubscribe() has returned
+        engine_t::call_end();
+      }
+      v += 1;
+      w.hot[1].clone().next(v);
+    }));
+  }
+  if sched_pipe {
+    let w = w.clone();
+    let ops = w_ops.clone();
+    bodies.push(Box::new(move || {
+      TID.with(|t| t.set(2));
+      for adv in ops {
+        if adv {
+          crate::vtime::advance(crate::vtime::ticks(1), false);
+        } else {
+          w.queue.run_one();
+        }
+      }
+    }));
+  }
+  let stats = engine_t::run_threads(bodies, preemptions.clone(), 5_000);
+  // afterwards: whatever is still scheduled runs now (the flag is up, unless unsubscribe never happened)
+  if stats.verdict == TV::Completed {
+    for _ in 0..8 {
+      while w.queue.run_one() {}
+      crate::vtime::advance(crate::vtime::ticks(1), false);
+    }
+    let mut h = w.hot[0].clone();
+    h.next(999);
+  }
+  let name = PIPES[pipe % 9];
+  let verdict = match &stats.verdict {
+    TV::Completed => {
+      if after.load(Ordering::SeqCst) {
+        Verdict::Violation { sig: format!("threads:after-unsubscribe:{name}"), detail: format!("a probe callback was entered after unsubscribe() had returned; log: {:?}", w.log.lock().unwrap().iter().map(|(p, m)| format!("{p}:{m:?}")).collect::<Vec<_>>()) }
+      } else {
+        Verdict::Ok
+      }
+    }
+    other => Verdict::Violation { sig: format!("threads:{}:{name}", match other { TV::Deadlock(_) => "deadlock", TV::LostWakeup(_) => "lost-wakeup", TV::Panic(_) => "panic", _ => "livelock" }), detail: format!("{other:?}") },
+  };
+  let desc = if ctx.want_desc || matches!(verdict, Verdict::Violation { .. }) {
+    Some(json!({"pipeline": name, "thread A (input, 0=complete 1=error else next)": a_ops, "thread B": format!("{b_pre} x next(input 1); unsubscribe; raise flag; next(input 1)"), "thread W (true=advance, false=run task)": w_ops, "preemptions(step->thread)": preemptions}))
+  } else {
+    None
+  };
+  let mut labels = vec!["part:threads", name];
+  if stats.preempted_inside_call > 0 {
+    labels.push("preempted-inside-call");
+  }
+  Outcome { verdict, nontrivial: stats.preempted_inside_call > 0, hash: hash_of(&(pipe, &a_ops, b_pre, &w_ops, &preemptions)), labels, notes: vec![], desc }
 }
